@@ -175,6 +175,10 @@ class World:
 
         builtins.open = sim_open
         io.open = sim_open
+        # RNG and clock defaults: one fixed state per fresh process; ops re-seed / re-set explicitly
+        np.random.seed(int(self.env.get('rng_seed', 0)))
+        FakeDatetime._now = _dt.datetime.fromisoformat(self.env.get('epoch', '2021-03-04T05:06:07.089000'))
+        self.seams['rng'] = True
         # logging: total size + warnings
         lg = logging.getLogger('dliswriter')
         lg.setLevel(logging.INFO)
